@@ -235,7 +235,65 @@ func waitReload(uuid, inst string) {
 	time.Sleep(200 * time.Millisecond)
 }
 
+// c13BulkReload: an instance holding around a thousand tag references spread over several blocks, every tag used
+// in every block; the denormalised views are rebuilt by each kind of reload (in memory, in memory with checking,
+// low memory) and must afterwards still be views of the stored element set.
+func c13BulkReload(c *Ctx) {
+	r := c.Rng.Fork()
+	modes := []string{"?inmemory=false", "", "?check=true", "?inmemory=false&check=true"}
+	for ep, perBlock := range []int{140, 95} {
+		func() {
+			OpenServer()
+			defer CloseServer()
+			root := NewRepo()
+			NewInstance(root, "annotation", "pts", nil)
+			const bs = 64
+			set := map[[3]int32]annElem{}
+			var hl []string
+			hist := func() string { return strings.Join(hl, "\n") }
+			nblocks := 5 + r.Intn(3)
+			refs := 0
+			for b := 0; b < nblocks; b++ {
+				bc := [3]int32{int32(r.Intn(3) - 1), int32(r.Intn(3) - 1), int32(b - 2)}
+				var els []annElem
+				for i := 0; i < perBlock+r.Intn(40); i++ {
+					pos := [3]int32{bc[0]*bs + int32(r.Intn(bs)), bc[1]*bs + int32(r.Intn(bs)), bc[2]*bs + int32(r.Intn(bs))}
+					if _, occ := set[pos]; occ {
+						continue
+					}
+					e := annElem{Pos: pos, Kind: "PostSyn", Tags: []string{annTags[r.Intn(3)]}, Prop: map[string]string{"n": fmt.Sprint(b)}, Rels: []annRel{}}
+					if r.Chance(0.5) {
+						if t := annTags[r.Intn(3)]; t != e.Tags[0] {
+							e.Tags = append(e.Tags, t)
+						}
+					}
+					refs += len(e.Tags)
+					set[pos] = e
+					els = append(els, e)
+				}
+				body, _ := json.Marshal(els)
+				rr := Post("node/"+root+"/pts/elements", body)
+				hl = append(hl, fmt.Sprintf("POST elements: %d tagged elements in block %v -> %d", len(els), bc, rr.Code))
+			}
+			hl = append(hl, fmt.Sprintf("(%d elements, %d tag references in %d blocks)", len(set), refs, nblocks))
+			checkAnnViews(c, r, root, "pts", set, bs, hist)
+			for k := 0; k < 2; k++ {
+				q := modes[(2*ep+k)%len(modes)]
+				if k == 0 {
+					q = modes[0]
+				}
+				rr := Post("node/"+root+"/pts/reload"+q, nil)
+				hl = append(hl, fmt.Sprintf("POST reload%s -> %d", q, rr.Code))
+				waitReload(root, "pts")
+				c.Count("bulk reload" + q)
+				checkAnnViews(c, r, root, "pts", set, bs, hist)
+			}
+		}()
+	}
+}
+
 func runC13(c *Ctx) {
+	defer c13BulkReload(c)
 	c.Rule = "a case is one view (all-elements, tag, spatial box, blocks, per-body list, per-body count) read after synchronisation settled and compared with the same view computed from the expected element set, after a generated history of element posts (new, overwriting, changing tags/kinds, mutual relationships), deletions, moves (within a block, across blocks, onto another body), block ingest + reload, and merges, cleaves, supervoxel splits and voxel edits of the synced label volume; non-trivial when the expected view is non-empty"
 	quietLogs()
 	sessions, steps := 2, 45
@@ -406,6 +464,15 @@ func runC13(c *Ctx) {
 					if len(els) >= 2 && r.Chance(0.5) {
 						els[0].Rels = []annRel{{"PostSynTo", els[1].Pos}}
 						els[1].Rels = []annRel{{"PreSynTo", els[0].Pos}}
+						if els[0].Prop["n"] < "4" { // two relationships between the same pair, a third partner after them or not
+							els[0].Rels = append(els[0].Rels, annRel{"GroupedWith", els[1].Pos})
+							els[1].Rels = append(els[1].Rels, annRel{"GroupedWith", els[0].Pos})
+							if len(els) >= 3 {
+								els[0].Rels = append(els[0].Rels, annRel{"GroupedWith", els[2].Pos})
+								els[2].Rels = []annRel{{"GroupedWith", els[0].Pos}}
+							}
+							c.Count("post: two relationships to one partner")
+						}
 					}
 					body, _ := json.Marshal(els)
 					rr := Post("node/"+root+"/pts/elements", body)
